@@ -2,7 +2,7 @@
    for C18.  Kept only to document the finding (Proofs/LatticePinnedRefuted.v). *)
 From Coq Require Import String Bool.
 From BS Require Import Model.Lattice.
-Open Scope string_scope.
+Local Open Scope string_scope.
 
 Fixpoint zleb0 (a b : zone) : bool :=
   match a with
